@@ -85,6 +85,9 @@ pub enum Src {
   Create(usize),
   /// `create` that synchronously emits the script at subscription
   CreateSync(Vec<N>),
+  /// a cold source that reads the world when it is subscribed: the k-th subscription (counted
+  /// over all clones of the pipeline) synchronously emits script k (mod the number of scripts)
+  Varying(Vec<Vec<N>>),
   Iter(Vec<V>),
   /// counting iterator 0.. capped at n pulls (pull counter logged under id)
   IterCount(u32, usize),
@@ -344,7 +347,7 @@ impl Src {
   pub fn name(&self) -> &'static str {
     match self {
       Src::Hot(_) => "subject",
-      Src::Create(_) | Src::CreateSync(_) => "create",
+      Src::Create(_) | Src::CreateSync(_) | Src::Varying(_) => "create",
       Src::Iter(_) | Src::IterCount(..) => "from_iter",
       Src::Of(_) => "of",
       Src::OfOpt(_) => "of_option",
